@@ -402,7 +402,7 @@ fn run_once_inner<T: Sc, F: Factory<T>>(sc: &Scenario, rep: &mut RunReport, samp
     }
     let mut poisoned = false;
     let mut fault_seen_before = false;
-    let check_present = |rep: &mut RunReport, s: &Snap, site: &str, recovered: bool, world: &World<T>| {
+    let check_present = |rep: &mut RunReport, s: &Snap, site: &str, recovered: bool, world: &World<T>, cache_par: bool| {
         // rule 3 / 6: whatever is present must be the fault-free state for the reported α
         if s.resid.is_none() && s.coeff.is_none() && !recovered {
             return;
@@ -410,7 +410,9 @@ fn run_once_inner<T: Sc, F: Factory<T>>(sc: &Scenario, rep: &mut RunReport, samp
         let alpha: Vec<T> = s.params.iter().map(|b| T::of_bits(*b)).collect();
         match guarded(|| fresh::<T, F>(world, &alpha, false, false)) {
             Ok(Ok(fr)) => {
-                if fr.snap.resid != s.resid || fr.snap.coeff != s.coeff {
+                // the reference is sequential; a state computed by the parallel flavour may differ
+                // from it in the last bits (one-flavour refactoring), never beyond
+                if agree_with_reference::<T>(world, &fr.snap, s, !cache_par) == Agree::No {
                     let class = if recovered && s.resid.is_none() && fr.snap.resid.is_some() {
                         "NO_RECOVERY"
                     } else {
@@ -440,10 +442,13 @@ fn run_once_inner<T: Sc, F: Factory<T>>(sc: &Scenario, rep: &mut RunReport, samp
                 }
             }
         } else if let Some(s) = &r.build_snap {
-            check_present(rep, s, "build", false, &r.world);
+            check_present(rep, s, "build", false, &r.world, sc.parallel);
         }
     }
     let mut prev_snap = r.build_snap.clone();
+    // flavour of the problem now, and flavour that computed the cache in effect
+    let mut cur_par = sc.parallel;
+    let mut cache_par = sc.parallel;
     for st in &r.steps {
         let op = &sc.ops[st.op];
         let name = op_name(op);
@@ -464,7 +469,8 @@ fn run_once_inner<T: Sc, F: Factory<T>>(sc: &Scenario, rep: &mut RunReport, samp
                     }
                 } else {
                     poisoned = false;
-                    check_present(rep, s, "SetParams", fault_seen_before, &r.world);
+                    cache_par = cur_par;
+                    check_present(rep, s, "SetParams", fault_seen_before, &r.world, cache_par);
                     if fault_seen_before {
                         rep.probe("recovery_checked");
                     }
@@ -484,7 +490,7 @@ fn run_once_inner<T: Sc, F: Factory<T>>(sc: &Scenario, rep: &mut RunReport, samp
                         if j.bits.is_some() {
                             rep.violate(sc, "STALE_AFTER_FAILURE", "Jacobian", format!("op {}: Jacobian exposed although the last update failed", st.op));
                         }
-                    } else if s.resid.is_some() {
+                    } else if s.resid.is_some() && cache_par == st.par_after {
                         let alpha: Vec<T> = s.params.iter().map(|b| T::of_bits(*b)).collect();
                         let par = st.par_after;
                         if let Ok(Ok(fr)) = guarded(|| fresh::<T, F>(&r.world, &alpha, par, true)) {
@@ -549,7 +555,12 @@ fn run_once_inner<T: Sc, F: Factory<T>>(sc: &Scenario, rep: &mut RunReport, samp
                     }
                     // the final state: absent or correct
                     poisoned = s.resid.is_none();
-                    check_present(rep, s, "Fit/final-state", false, &r.world);
+                    if let Extra::Fit(ff) = &st.extra {
+                        if ff.evaluations > 1 {
+                            cache_par = ff.was_parallel;
+                        }
+                    }
+                    check_present(rep, s, "Fit/final-state", false, &r.world, cache_par);
                     if f.ok && f.coeffs.is_some() != s.coeff.is_some() {
                         rep.violate(sc, "PRESENT_BUT_WRONG", "Fit/coefficients", "FitResult and problem disagree on the presence of coefficients".into());
                     }
@@ -565,6 +576,7 @@ fn run_once_inner<T: Sc, F: Factory<T>>(sc: &Scenario, rep: &mut RunReport, samp
         if fails {
             fault_seen_before = true;
         }
+        cur_par = st.par_after;
         prev_snap = Some(s.clone());
     }
     Exec::uninstall();
